@@ -5,3 +5,4 @@ import Audit.C15
 import Audit.C12
 import Audit.C13
 import Audit.C14
+import Audit.C19
